@@ -126,6 +126,8 @@ pub fn run_case(tape: &mut Tape, _tier: Tier, _p: &CaseParams) -> CaseOutcome {
   let mut sem = SemOpts::default();
   sem.kind = tape.draw(Stream::Options, 3) as u8;
   sem.skip_dynamic_deps = tape.draw(Stream::Options, 6) == 5;
+  // asset imports inside packages are only loaded as assets when enabled
+  sem.unstable_text = tape.draw(Stream::Options, 2) == 1;
   let ctx = |extra: Value, w: &World| {
     json!({"what": extra, "sem": sem, "world": w.to_json()})
   };
